@@ -1,9 +1,10 @@
 ---------------------------- MODULE MC_SlowCycle ----------------------------
 (* Exhaustive model of SlowCycle on small constants.
 
-   Two configurations: two FMMU terminals sharing one LRD (expected count 2) plus one LWR with
+   Three configurations: two FMMU terminals sharing one LRD (expected count 2) plus one LWR with
    two output bits in the same byte, and one directly addressed terminal (FPRD + FPWR, one
-   byte each).  The master picks any frame of the configuration's layout that Send admits
+   byte each), and an FMMU input terminal followed by a terminal with FMMU inputs and
+   directly addressed outputs.  The master picks any frame of the configuration's layout that Send admits
    (deadlock freedom = the demands of Send can always be met, e.g. two bits of one byte), the
    environment returns any data and any counter from WkcVals (below and above 256) or does not
    answer at all (Lose), the devices set any subset of their outputs; at any moment the group
@@ -22,20 +23,29 @@ Fm(l, n, p, d) == [logical |-> l, length |-> n, phys |-> p, dir |-> d]
 Var(t, sm, pos, n, bit) == [term |-> t, sm |-> sm, pos |-> pos, n |-> n, bit |-> bit]
 Sh(cmd, adp, ado, laddr, len) == [cmd |-> cmd, adp |-> adp, ado |-> ado, laddr |-> laddr, len |-> len]
 
-CfgFmmu == [terms |-> << [station |-> 5, fmmu |-> TRUE, in_off |-> 16, out_off |-> 32,
+CfgFmmu == [terms |-> << [station |-> 5, fmmu_in |-> TRUE, fmmu_out |-> TRUE, in_off |-> 16, out_off |-> 32,
                           fm |-> <<Fm(100, 1, 16, 1), Fm(200, 1, 32, 2)>>],
-                         [station |-> 6, fmmu |-> TRUE, in_off |-> 16, out_off |-> 32,
+                         [station |-> 6, fmmu_in |-> TRUE, fmmu_out |-> TRUE, in_off |-> 16, out_off |-> 32,
                           fm |-> <<Fm(101, 1, 16, 1)>>] >>,
             vars |-> << Var(1, "in", 0, 1, -1), Var(2, "in", 0, 1, 1),
                         Var(1, "out", 0, 1, 0), Var(1, "out", 0, 1, 1) >>,
             ndev |-> 1,
             shape |-> << Sh(LRD, 100, 0, 100, 2), Sh(LWR, 200, 0, 200, 1) >>]
-CfgDirect == [terms |-> << [station |-> 7, fmmu |-> FALSE, in_off |-> 16, out_off |-> 32,
+CfgDirect == [terms |-> << [station |-> 7, fmmu_in |-> FALSE, fmmu_out |-> FALSE, in_off |-> 16, out_off |-> 32,
                             fm |-> <<>>] >>,
               vars |-> << Var(1, "in", 0, 1, -1), Var(1, "out", 0, 1, -1) >>,
               ndev |-> 1,
               shape |-> << Sh(FPRD, 7, 16, 0, 1), Sh(FPWR, 7, 32, 0, 1) >>]
-MCConfigs == {CfgFmmu, CfgDirect}
+(* inputs through an FMMU, outputs by station address (the package's Aerotech terminals),
+   behind a plain FMMU input terminal: the logical read is processed by both *)
+CfgSplit == [terms |-> << [station |-> 4, fmmu_in |-> TRUE, fmmu_out |-> TRUE, in_off |-> 16,
+                           out_off |-> 32, fm |-> <<Fm(100, 1, 16, 1)>>],
+                          [station |-> 8, fmmu_in |-> TRUE, fmmu_out |-> FALSE, in_off |-> 16,
+                           out_off |-> 32, fm |-> <<Fm(101, 3, 16, 1)>>] >>,
+             vars |-> << Var(1, "in", 0, 1, -1), Var(2, "in", 0, 1, 0), Var(2, "out", 0, 1, -1) >>,
+             ndev |-> 1,
+             shape |-> << Sh(LRD, 100, 0, 100, 2), Sh(FPWR, 8, 32, 0, 1) >>]
+MCConfigs == {CfgFmmu, CfgDirect, CfgSplit}
 
 Dg(s, d, w) == [cmd |-> s.cmd, adp |-> s.adp, ado |-> s.ado, laddr |-> s.laddr, len |-> s.len,
                 data |-> d, wkc |-> w]
